@@ -234,7 +234,10 @@ func (s *sched) install() {
 
 // schedLogger is an injected limit.Logger: every Debugf of the blocking/deadline limiters (one of them
 // sits between the failed attempt and the wait) is a schedule point.
-type schedLogger struct{ s *sched }
+type schedLogger struct {
+	s     *sched
+	debug bool // reports debug output as enabled (code that only logs then - and what it does around the log call - runs)
+}
 
 func (l schedLogger) Debugf(msg string, params ...interface{}) {
 	n := len(msg)
@@ -243,7 +246,7 @@ func (l schedLogger) Debugf(msg string, params ...interface{}) {
 	}
 	l.s.Point("log:" + msg[:n])
 }
-func (l schedLogger) IsDebugEnabled() bool { return false }
+func (l schedLogger) IsDebugEnabled() bool { return l.debug }
 
 // slowLimiter is an injected delegate for real-clock runs: a delegate may be slow.
 type slowLimiter struct {
@@ -495,7 +498,7 @@ func buildStack(cfg StackCfg, lim core.Limit, sc *sched, t0 time.Time) (*stack, 
 	}
 	if cfg.Inject && sc != nil {
 		delegate = &yieldLimiter{def, sc}
-		logger = schedLogger{sc}
+		logger = schedLogger{sc, cfg.FmtLog}
 	}
 	if cfg.SlowUs > 0 {
 		delegate = &slowLimiter{inner: delegate, d: time.Duration(cfg.SlowUs) * time.Microsecond}
